@@ -83,6 +83,25 @@ def tol_bounds_ok(lo, hi, tolname):
   return sym.equal(slo, 1 / (1 + t)) and sym.equal(shi, 1 + t)
 
 
+def half_ok(kappa, iv):
+  """A one-sided test whose present limit is the documented limit of that side (so the reading "the comparison holds =
+  the limit is violated" that produced the half interval is the right one)."""
+  if (iv.lo is None) == (iv.hi is None):
+    return False
+  if kappa in ('volume_ratio_tolerance', 'geo_ratio_tolerance'):
+    t = sym.symbol('tol', positive=True)
+    leaf = lambda e: t if norm(e) == P + kappa else None
+    try:
+      if iv.lo is not None:
+        return sym.equal(sym.to_sym(iv.lo, leaf), 1 / (1 + t))
+      return sym.equal(sym.to_sym(iv.hi, leaf), 1 + t)
+    except Undecided:
+      return False
+  if iv.lo is not None:
+    return norm(iv.lo) == '%s%s[0]' % (P, kappa)
+  return norm(iv.hi) == '%s%s[1]' % (P, kappa)
+
+
 def range_bounds_ok(lo, hi, pname):
   if lo is None or hi is None:
     return False      # one-sided test: half of the range is not enforced
@@ -831,6 +850,35 @@ def run_search(repo, rep, name, dwc):
         e.vacuous = is_vacuous(g, n, iv, kappa, resolve_at, one_it, src=hdr)
         report_enforcement(rep, where, kappa, e, f.qualname)
         result[kappa] = ('test', repr(iv))
+        # the rejecting outcome of the enforcing test must not reach the push in the same iteration
+        rej_lab0 = 'false' if iv.accept_when else 'true'
+        rej_succ0 = [m_ for m_, l_ in g.succ[n] if l_ == rej_lab0]
+        polarity_sure = (iv.lo is not None and iv.hi is not None and ok) or half_ok(kappa, iv)
+        if polarity_sure and any(m_ is P_.node or P_.node in g.reachable(m_, lambda a, b, lab: one_it(a, b, lab) and lab != 'exc') for m_ in rej_succ0):
+          rep.violation('R2/must-pass', f.qualname, '%s: rejecting outcome of %s reaches the push' % (kappa, norm(n.expr)[:80]),
+                        '%s: after `%s` has found the %s limit violated, a path still reaches the push in the same iteration (the skip is conditional on something else): designs outside the limit are returned'
+                        % (name, norm(n.expr)[:80], kappa), f.loc(n.expr))
+        # a limit tested by a separate one-sided comparison must guard the push as well
+        if (iv.lo is None) != (iv.hi is None):
+          for n2, iv2, others2 in cands:
+            if n2 is n or (iv2.lo is None) == (iv2.hi is None) or (iv2.lo is None) == (iv.lo is None):
+              continue
+            hdr2 = outer if (C not in norm(iv2.v) and kappa in ('treatment_share_range', 'treatment_geos_range')) else inner
+            one_it2 = view.one_iteration_edges(hdr2)
+            ef2 = cfgmod.edge_filter_under(g, facts, resolve_at=resolve_at, extra=one_it2)
+            byp2 = g.path_avoiding(hdr2, lambda m: m is P_.node, lambda m: m is n2,
+                                   cfgmod.edge_filter_under(g, facts, resolve_at=resolve_at, extra=lambda a, b, lab, n2=n2, iv2=iv2: one_it2(a, b, lab)))
+            thr2 = g.path_avoiding(hdr2, lambda m: m is P_.node, lambda m: False,
+                                   cfgmod.edge_filter_under(g, facts, resolve_at=resolve_at,
+                                                            extra=lambda a, b, lab, n2=n2, iv2=iv2: one_it2(a, b, lab) and not accept_edge_ok(n2, iv2)(a, b, lab) if (a is n2) else one_it2(a, b, lab)))
+            # the rejecting outcome of n2 must not reach the push: is there a path from its rejecting edge to the push within the iteration?
+            rej_lab = 'false' if iv2.accept_when else 'true'
+            rej_succ = [m_ for m_, l_ in g.succ[n2] if l_ == rej_lab]
+            leak = any(P_.node in g.reachable(m_, lambda a, b, lab: one_it2(a, b, lab) and lab != 'exc') or m_ is P_.node for m_ in rej_succ)
+            if leak:
+              rep.violation('R2/must-pass', f.qualname, '%s: bypass of %s' % (kappa, norm(n2.expr)[:80]),
+                            '%s: the %s limit tested by `%s` does not guard the push: after the rejecting outcome of that test a path still reaches the push in the same iteration (the rejection is conditional on something else)'
+                            % (name, kappa, norm(n2.expr)[:80]), f.loc(n2.expr))
         break
       if enforced:
         continue
